@@ -262,8 +262,9 @@ func mutateFetchTables(r *hx.Rng, t *fetchTables) {
 		t.offKind = "N"
 	case 4: // both boxes, different contents
 		t.offKind = "B"
-		t.stco, t.co64 = offs, make([]uint64, len(offs))
+		t.stco, t.co64 = make([]uint64, len(offs)), make([]uint64, len(offs))
 		for i := range offs {
+			t.stco[i] = offs[i] & 0xffffffff // stco entries are 32 bits
 			t.co64[i] = offs[i] + uint64(r.Intn(3))
 		}
 	case 5: // samples-per-chunk 0 / too large (never 2^32-1: the Go loops over a chunk's samples are uint32 loops)
